@@ -100,6 +100,7 @@ typedef struct {
     m_evt_ps_t msg;
     m_ps_flags flags;
     ev_src_t *sub;
+    void *data_ref;                         // Ref counted holder of M_PS_AUTOFREE data, shared by every copy of the message
 } ps_priv_t;
 
 extern const char *src_names[];
